@@ -12,7 +12,7 @@
    The lines handed to process_line are `LOK`: no NUL, at most one LF (FeedProofs.lines_clean). *)
 From Coq Require Import List NArith Arith Bool Lia Strings.String.
 From V Require Import Base.Bytes Base.Res Gen.StrLeafGen Gen.FeedConst Gen.Nodes Gen.BlocksConst Model.Ast Model.Strings
-  Model.AutolinkLeaf Model.Scan Model.Feed Model.FrontMatter Model.RefDef Model.Blocks Spec.LineEndings Proofs.FeedProofs Proofs.StrLeafProofs
+  Model.AutolinkLeaf Model.Scan Spec.EscapeSpec Model.Feed Model.FrontMatter Model.RefDef Model.Blocks Spec.LineEndings Proofs.FeedProofs Proofs.StrLeafProofs
   Proofs.BlocksProofs Proofs.BlocksPos.
 Import ListNotations.
 Local Open Scope string_scope.
@@ -487,3 +487,180 @@ Proof.
         (intro; eapply add_child_gen_qi; [exact A | auto | reflexivity | constructor; [exact Alc | constructor] | assumption])
     end; eauto 20 with qi.
 Qed.
+
+(* ================================================================== the handlers of open_new_blocks *)
+Section handlers.
+Variables (o : bopts) (line : bytes).
+Hypothesis HLine : LOK line.
+
+Lemma handle_alert_qi st c ind b c' st' : handle_alert o st c line ind = Ok (b, c', st') -> QI st -> QI st'.
+Proof. unfold handle_alert. intros H P. qigo H. Qed.
+Lemma handle_mbq_qi st c ind b c' st' : handle_multiline_blockquote o st c line ind = Ok (b, c', st') -> QI st -> QI st'.
+Proof. unfold handle_multiline_blockquote, rest_at_fns. intros H P. qigo H. Qed.
+Lemma handle_blockquote_qi st c ind b c' st' : handle_blockquote o st c line ind = Ok (b, c', st') -> QI st -> QI st'.
+Proof. unfold handle_blockquote. intros H P. qigo H. Qed.
+Lemma handle_atx_qi st c ind b c' st' : handle_atx_heading o st c line ind = Ok (b, c', st') -> QI st -> QI st'.
+Proof.
+  unfold handle_atx_heading, rest_at_fns. intros H P. mon H; monall; repeat match goal with p : (_ * _)%type |- _ => destruct p end; cbn [fst snd] in *; eauto with qi.
+  eapply add_child_gen_qi; [eassumption | | reflexivity | constructor | eauto with qi].
+  intros i Ev Hi. apply Qn_trivial. destruct i; reflexivity.
+Qed.
+Lemma handle_code_fence_qi st c ind b c' st' : handle_code_fence o st c line ind = Ok (b, c', st') -> QI st -> QI st'.
+Proof. unfold handle_code_fence, rest_at_fns. intros H P. qigo H. Qed.
+Lemma handle_html_block_qi st c ind b c' st' : handle_html_block o st c line ind = Ok (b, c', st') -> QI st -> QI st'.
+Proof.
+  unfold handle_html_block, rest_at_fns. intros H P.
+  mstep H; [inversion H; subst; exact P|]. mstep H. mstep H. cbv zeta in H.
+  match type of H with match ?m with _ => _ end = _ => destruct m as [matched|] eqn:M; [|inversion H; subst; exact P] end.
+  assert (R : 1 <= matched <= 7).
+  { destruct (scan_html_block_start a) as [m1|] eqn:S1.
+    - inversion M; subst. pose proof (scan_html_block_start_range _ _ S1). lia.
+    - destruct (negb (is_paragraph a0)); [|discriminate M]. pose proof (scan_html_block_start_7_range _ _ M). lia. }
+  mon H. repeat match goal with p : (_ * _)%type |- _ => destruct p end. cbn [fst snd] in *.
+  eapply add_child_qi; [eassumption | now apply hb_ok_range | exact P].
+Qed.
+Lemma handle_footnote_qi st c ind d b c' st' : handle_footnote o st c line ind d = Ok (b, c', st') -> QI st -> QI st'.
+Proof. unfold handle_footnote, rest_at_fns. intros H P. qigo H. Qed.
+Lemma list_spaces_loop_qi sc : forall fuel st st', list_spaces_loop fuel st line sc = Ok st' -> QI st -> QI st'.
+Proof. induction fuel as [|f IH]; intros st st' H P; cbn [list_spaces_loop] in H; qigo H. Qed.
+Hint Resolve list_spaces_loop_qi : qi.
+Lemma handle_list_qi st c ind d b c' st' : handle_list o st c line ind d = Ok (b, c', st') -> QI st -> QI st'.
+Proof. unfold handle_list. intros H P. qigo H. Qed.
+Lemma handle_code_block_qi st c ind ml b c' st' : handle_code_block o st c line ind ml = Ok (b, c', st') -> QI st -> QI st'.
+Proof. unfold handle_code_block. intros H P. qigo H. Qed.
+
+Lemma handle_setext_qi st c ind b c' st' : handle_setext_heading o st c line ind = Ok (b, c', st') -> QI st -> QI st'.
+Proof.
+  unfold handle_setext_heading, rest_at_fns. intros H P.
+  mstep H; [inversion H; subst; exact P|].
+  destruct (get st c) as [cn| |] eqn:G; cbn [bind] in H; try discriminate H.
+  destruct (is_paragraph cn) eqn:Pa; cbn [negb] in H; [|inversion H; subst; exact P].
+  apply is_paragraph_val in Pa. pose proof (get_qn _ _ _ P G) as Qc.
+  mon H; monall; repeat match goal with p : (_ * _)%type |- _ => destruct p end; cbn [fst snd] in *; eauto 10 with qi;
+  match goal with R : resolve_refdefs _ _ _ = Ok _ |- _ => destruct (resolve_refdefs_suffix _ _ _ _ _ _ R) as [kk Ek] end;
+  match goal with M1 : modify_info (st_refmap st _) _ _ = Ok ?s1 |- _ => assert (P1 : QI s1) end;
+  try (eapply modify_info_get_qi; [eassumption | exact G | | apply QI_st_refmap; exact P]; intros _;
+       destruct cn as [i ch]; destruct i; unfold bval, Qn in *; cbn in *; subst; cbn in *;
+       first [ split; [reflexivity | discriminate]
+             | (split; [reflexivity|]; intros _; destruct Qc as [_ Qc]; destruct (Qc eq_refl) as [Q1 Q2];
+                split; [now apply nonul_skipn | eapply Nat.le_trans; [apply cnl_skipn | exact Q2]]) ]);
+  eauto 10 with qi.
+Qed.
+
+Lemma handle_thematic_break_qi st c ind am b c' st' : handle_thematic_break o st c line ind am = Ok (b, c', st') -> QI st -> QI st'.
+Proof. unfold handle_thematic_break. intros H P. qigo H. Qed.
+
+Lemma handle_description_list_qi st c ind b c' st' : handle_description_list o st c line ind = Ok (b, c', st') -> QI st -> QI st'.
+Proof.
+  unfold handle_description_list, rest_at_fns. intros H P.
+  mon H; monall; repeat match goal with p : (_ * _)%type |- _ => destruct p end; cbn [fst snd] in *; try exact P;
+  match goal with D : parse_desc_list_details _ _ _ _ = Ok (_, _, ?s) |- _ =>
+    assert (QI s) by (eapply parse_desc_list_details_qi; eassumption) end; eauto with qi.
+Qed.
+
+Hint Resolve handle_alert_qi handle_mbq_qi handle_blockquote_qi handle_atx_qi handle_code_fence_qi
+  handle_html_block_qi handle_setext_qi handle_thematic_break_qi handle_footnote_qi
+  handle_description_list_qi handle_list_qi handle_code_block_qi : qi.
+
+Lemma or_else_h_qi (r : hres) k b c st st' :
+  or_else_h r k = Ok (b, c, st') -> QI st ->
+  (forall b1 c1 s1, r = Ok (b1, c1, s1) -> QI st -> QI s1) ->
+  (forall c1 s1 b2 c2 s2, k c1 s1 = Ok (b2, c2, s2) -> QI s1 -> QI s2) ->
+  QI st'.
+Proof.
+  unfold or_else_h. intros H P Hr Hk.
+  destruct r as [[[b1 c1] s1]| |]; cbn [bind] in H; try discriminate H.
+  destruct b1.
+  - inversion H; subst. eapply Hr; [reflexivity | exact P].
+  - eapply Hk; [exact H|]. eapply Hr; [reflexivity | exact P].
+Qed.
+
+Ltac chain_q :=
+  match goal with
+  | R : or_else_h _ _ = Ok _ |- QI _ =>
+    eapply (or_else_h_qi _ _ _ _ _ _ R); clear R;
+    [ eassumption | intros ? ? ? ? ?; eauto with qi | intros ? ? ? ? ? R ?; cbv beta in R; chain_q ]
+  | |- QI _ => eauto with qi
+  end.
+
+(* the state after the chain of handlers *)
+Lemma handlers_chain_qi st ind am ml d c hd c1 s1 :
+  or_else_h (handle_alert o st c line ind) (fun container st =>
+          or_else_h (handle_multiline_blockquote o st container line ind) (fun container st =>
+          or_else_h (handle_blockquote o st container line ind) (fun container st =>
+          or_else_h (handle_atx_heading o st container line ind) (fun container st =>
+          or_else_h (handle_code_fence o st container line ind) (fun container st =>
+          or_else_h (handle_html_block o st container line ind) (fun container st =>
+          or_else_h (handle_setext_heading o st container line ind) (fun container st =>
+          or_else_h (handle_thematic_break o st container line ind am) (fun container st =>
+          or_else_h (handle_footnote o st container line ind d) (fun container st =>
+          or_else_h (handle_description_list o st container line ind) (fun container st =>
+          or_else_h (handle_list o st container line ind d) (fun container st =>
+          handle_code_block o st container line ind ml))))))))))) = Ok (hd, c1, s1) -> QI st -> QI s1.
+Proof. intros R P. chain_q. Qed.
+
+Lemma open_new_blocks_step_qi st c am ml d g c' st' :
+  open_new_blocks_step o st c line am ml d = Ok (g, c', st') -> QI st -> QI st'.
+Proof.
+  unfold open_new_blocks_step. intros H P.
+  destruct (ffn st line) as [s0| |] eqn:F0; cbn [bind] in H; try discriminate H.
+  assert (P0 : QI s0) by eauto with qi.
+  match type of H with bind ?r _ = _ => destruct r as [[[hd c1] s1]| |] eqn:R; cbn [bind] in H; try discriminate H end.
+  assert (P1 : QI s1) by (eapply handlers_chain_qi; eassumption).
+  clear R.
+  destruct hd.
+  - qigo H.
+  - destruct (negb (Nat.leb code_indent (indent s0)) && bo_table o) eqn:Tb.
+    + destruct (try_opening_block o s1 c1 line) as [[tr s2]| |] eqn:TO; cbn [bind] in H; try discriminate H.
+      assert (P2 : QI s2) by (eapply try_opening_block_qi; eassumption).
+      destruct tr; qigo H.
+    + qigo H.
+Qed.
+Hint Resolve open_new_blocks_step_qi : qi.
+
+Lemma open_new_blocks_loop_qi am : forall fuel st c ml d c' st',
+  open_new_blocks_loop fuel o st c line am ml d = Ok (c', st') -> QI st -> QI st'.
+Proof. induction fuel as [|f IH]; intros st c ml d c' st' H P; cbn [open_new_blocks_loop] in H; qigo H. Qed.
+Hint Resolve open_new_blocks_loop_qi : qi.
+
+Lemma open_new_blocks_qi st c am c' st' : open_new_blocks o st c line am = Ok (c', st') -> QI st -> QI st'.
+Proof. unfold open_new_blocks. intros H P. qigo H. Qed.
+
+Lemma clear_llb_up_qi : forall fuel st id st', clear_llb_up fuel st id = Ok st' -> QI st -> QI st'.
+Proof. induction fuel as [|f IH]; intros st id st' H P; cbn [clear_llb_up] in H; qigo H. Qed.
+
+Lemma finalize_up_to_qi target site : forall fuel st st', finalize_up_to fuel o st target site = Ok st' -> QI st -> QI st'.
+Proof. induction fuel as [|f IH]; intros st st' H P; cbn [finalize_up_to] in H; qigo H. Qed.
+
+(* add_line with any LOK line (chop_trailing_hashtags hands it a prefix of the line) *)
+Lemma from_utf8_ok site b a : Blocks.from_utf8 site b = Ok a -> a = b.
+Proof. unfold Blocks.from_utf8. destruct (EscapeSpec.utf8_valid b); intro H; now inversion H. Qed.
+
+Lemma Qn_add_line i pad s off : Qn i -> nonul pad -> cnl pad = 0 -> nonul s -> cnl s <= 1 ->
+  Qn (set_lo (bi_lo i ++ [off]) (set_content ((bi_content i ++ pad) ++ s) i)).
+Proof.
+  destruct i as [f1 f2 f3 f4 f5 f6 f7 f8 f9 f10 f11 f12]. unfold Qn. cbn [bi_val bi_content bi_lo set_lo set_content]. intros [A B] P1 P2 S1 S2. split; [exact A|].
+  intro Ev. destruct (B Ev) as [Q1 Q2]. split; [repeat apply nonul_app; assumption|].
+  rewrite !cnl_app, app_length. cbn [List.length]. lia.
+Qed.
+Lemma Qn_add_pad i pad : Qn i -> nonul pad -> cnl pad = 0 -> Qn (set_content (bi_content i ++ pad) i).
+Proof.
+  destruct i as [f1 f2 f3 f4 f5 f6 f7 f8 f9 f10 f11 f12]. unfold Qn. cbn [bi_val bi_content bi_lo set_lo set_content]. intros [A B] P1 P2. split; [exact A|].
+  intro Ev. destruct (B Ev) as [Q1 Q2]. split; [repeat apply nonul_app; assumption|].
+  rewrite !cnl_app. lia.
+Qed.
+
+Lemma add_line_qi_gen l st id st' : LOK l -> add_line st id l = Ok st' -> QI st -> QI st'.
+Proof.
+  unfold add_line. intros [L1 L2] H P.
+  destruct (get st id) as [n| |] eqn:G; cbn [bind] in H; try discriminate H.
+  pose proof (get_qn _ _ _ P G) as Qc.
+  destruct (negb (bi_open (binf n))); [discriminate H|]. cbv zeta in H.
+  destruct (c_pct (ps_cur st)); cbv iota beta in H;
+  (mstep H; mon E; try match goal with U : Blocks.from_utf8 _ _ = Ok _ |- _ => apply from_utf8_ok in U; subst end; mon H; apply QI_st_cur;
+   (eapply modify_info_const_qi; [eassumption | exact G | | exact P]); intros _;
+   first [ apply Qn_add_line; [exact Qc | first [apply nonul_repeat | apply nonul_nil] | first [apply cnl_repeat | reflexivity]
+                              | now apply nonul_skipn | eapply Nat.le_trans; [apply cnl_skipn | exact L2]]
+         | apply Qn_add_pad; [exact Qc | first [apply nonul_repeat | apply nonul_nil] | first [apply cnl_repeat | reflexivity]] ]).
+Qed.
+End handlers.
